@@ -513,9 +513,9 @@ def check(ctx):
                sorted({pretty(l_)[:40] for l_, _ in wr} | {pretty(t[1])[:40] for t, _ in mut})))
 
     # ---- shared mechanisms: the neighbour's rules run as obligations of this property
-    ctx.include("C07", "C10.R8", only=['C07.R8'])
+    ctx.include("C07", "C10.R8", only=['C07.R8', 'C07.R5'])
     ctx.include("C08", "C10.R8", only=['C08.R4', 'C08.R5'])
-    ctx.rule("R8", "shared mechanisms, run as obligations of this property: the first recorded sample is the position extracted from the initial states, stacked along the chain axis (C08.R4/R5); per-chain results of every lifecycle event are stored as returned, chain by chain (C07.R8).")
+    ctx.rule("R8", "shared mechanisms, run as obligations of this property: the key-consuming end_warmup call happens at one place, decided by the epoch that STARTS (not by a look-ahead a later append_epoch invalidates) (C07.R5); the first recorded sample is the position extracted from the initial states, stacked along the chain axis (C08.R4/R5); per-chain results of every lifecycle event are stored as returned, chain by chain (C07.R8).")
 
 
 def _rooted_in_self_field(loc) -> bool:
